@@ -26,6 +26,7 @@ LDiffV(f, a, b) == [t |-> "ld", f |-> f, a |-> a, b |-> b]   \* address of label
 (* "variable treated as 8-bit (16-bit) value"; the engines disagree on the other bytes (the interpreter and -O0/-O1 code keep the old  *)
 (* ones, -O2 code assigns the extension of the stored value), so they are undefined here; after a 4-byte store the h flag says the same *)
 NarrowV(w, n) == [t |-> "nv", w |-> w, n |-> n]
+StackMarkV(fid, n) == [t |-> "sm", fid |-> fid, n |-> n]      \* what bstart saves: the activation and the number of memory blocks at that time
 RegAddrV(fid, r, n) == [t |-> "ra", fid |-> fid, r |-> r, n |-> n]   \* address of variable r of the activation fid (addr insns); n bytes may be accessed
 FnV(f) == [t |-> "fn", f |-> f]                 \* address of function f (a reference operand); never observable as a number
 UndefV == [t |-> "u"]
@@ -67,7 +68,7 @@ StoreMem(mem, ty, b, o, v) ==       \* returns [ok, m, why]
   LET n == TySize(ty) IN
   IF ~InBlock(mem, b, o, n) THEN [ok |-> FALSE, m |-> mem, why |-> "store out of bounds or dead block"]
   ELSE IF v.t = "p" /\ n # 8 THEN [ok |-> FALSE, m |-> mem, why |-> "narrow store of a pointer"]
-  ELSE IF v.t \in {"l", "fn", "ld", "ra"} THEN [ok |-> FALSE, m |-> mem, why |-> "label, function or variable address stored to memory"]
+  ELSE IF v.t \in {"l", "fn", "ld", "ra", "sm"} THEN [ok |-> FALSE, m |-> mem, why |-> "label, function or variable address stored to memory"]
   ELSE LET new == IF IsFpTy(ty) THEN [i \in 1..n |-> FpC(ty, i, v.x)]
                   ELSE IF v.t = "p" THEN [i \in 1..n |-> [k |-> "p", i |-> i, b |-> v.b, o |-> v.o]]
                   ELSE [i \in 1..n |-> IF v.h /\ i > 4 THEN UndefC ELSE ByteC(WordBytes(v.w)[i])]
@@ -209,6 +210,21 @@ Narrow(ty, v) == IF v.t = "i" /\ ty \in {"i8", "u8", "i16", "u16", "i32", "u32"}
 
 ExtResult(id, v) == IntV(Add64(v.w, id.w))          \* what harness ext_i(id, v) returns
 
+IsVararg(f) == "vararg" \in DOMAIN f /\ f.vararg
+(* the variable tail of a call of a `...` function: values with the type they are passed as (from the operand) *)
+ArgTy(opnd) == CASE opnd.k = "reg" -> (LET ty == Fn(Top).regty[opnd.r] IN IF ty = "i" THEN "i64" ELSE ty)
+                 [] opnd.k = "mem" -> (IF IsFpTy(opnd.ty) THEN opnd.ty ELSE "i64")
+                 [] opnd.k = "fimm" -> opnd.fmt
+                 [] OTHER -> "i64"
+VaTail(I, g, args) == [i \in 1..(Len(args) - Len(g.params)) |-> [v |-> args[Len(g.params) + i], ty |-> ArgTy(I.args[Len(g.params) + i])]]
+VaCells(fid, pos) == [j \in 1..24 |-> [k |-> "va", i |-> j, fid |-> fid, pos |-> pos]]
+VaState(a) ==    \* the va_list object at pointer a: [ok, pos] ; it must have been started by this activation
+  IF a.t # "p" \/ ~InBlock(mem, a.b, a.o, 24) THEN [ok |-> FALSE]
+  ELSE LET cs == SubSeq(mem[a.b].cells, a.o + 1, a.o + 24) IN
+       IF \A j \in 1..24 : cs[j].k = "va" /\ cs[j].i = j /\ cs[j].fid = Top.id /\ cs[j].pos = cs[1].pos
+       THEN [ok |-> TRUE, pos |-> cs[1].pos] ELSE [ok |-> FALSE]
+SetCells(m, b, o, new) == [m EXCEPT ![b].cells = [j \in 1..m[b].sz |-> IF j > o /\ j <= o + Len(new) THEN new[j - o] ELSE @[j]]]
+
 Step ==
   /\ status = "run"
   /\ steps' = steps + 1
@@ -303,6 +319,42 @@ Step ==
             IF IsBad(a) THEN GoUndef(a.why)
             ELSE IF a.t # "l" \/ a.f # Top.f THEN GoUndef("jmpi to something that is not a label of this function")
             ELSE Jump(a.l)
+       [] op = "bstart" -> WriteDst(I.d, StackMarkV(Top.id, Len(mem)), nxt, NoOvf)
+       [] op = "bend" ->      \* memory obtained by alloca since the matching bstart is released
+            LET v == RegVal(R, I.s[1].r) IN
+            IF IsBad(v) THEN GoUndef(v.why)
+            ELSE IF v.t # "sm" \/ v.fid # Top.id THEN GoUndef("bend of something that bstart of this activation did not save")
+            ELSE /\ mem' = [b \in 1..Len(mem) |-> IF b > v.n THEN [mem[b] EXCEPT !.live = FALSE] ELSE mem[b]]
+                 /\ frames' = SetTop([Top EXCEPT !.pc = nxt, !.ovf = NoOvf])
+                 /\ UNCHANGED <<prog, log, status, why, result>>
+       [] op = "va_start" ->
+            LET a == RegVal(R, I.s[1].r) IN
+            IF IsBad(a) THEN GoUndef(a.why)
+            ELSE IF ~IsVararg(Fn(Top)) THEN GoUndef("va_start in a function without ...")
+            ELSE IF a.t # "p" \/ ~InBlock(mem, a.b, a.o, 24) THEN GoUndef("va_list is not the address of 24 live bytes")
+            ELSE /\ mem' = SetCells(mem, a.b, a.o, VaCells(Top.id, 0))
+                 /\ frames' = SetTop([Top EXCEPT !.pc = nxt, !.ovf = NoOvf])
+                 /\ UNCHANGED <<prog, log, status, why, result>>
+       [] op = "va_arg" ->    \* the address of (a copy of) the next variable argument, which must have been passed with this type
+            LET a == RegVal(R, I.s[1].r) IN
+            IF IsBad(a) THEN GoUndef(a.why)
+            ELSE LET st == VaState(a) IN
+                 IF ~st.ok THEN GoUndef("va_arg on something va_start of this activation did not set up")
+                 ELSE IF st.pos >= Len(Top.va) THEN GoUndef("va_arg past the last argument")
+                 ELSE LET e == Top.va[st.pos + 1]  n == IF I.ty = "ld" THEN 16 ELSE 8 IN
+                      IF e.ty # I.ty THEN GoUndef("va_arg with another type than the argument was passed with")
+                      ELSE LET m1 == Append(SetCells(mem, a.b, a.o, VaCells(Top.id, st.pos + 1)),
+                                            [sz |-> n, live |-> TRUE, cells |-> [j \in 1..n |-> UndefC]])
+                               m2 == StoreMem(m1, I.ty, Len(mem) + 1, 0, e.v) IN
+                           IF ~m2.ok THEN GoUndef(m2.why)
+                           ELSE /\ mem' = m2.m
+                                /\ frames' = SetTop([Top EXCEPT !.regs[I.d.r] = PtrV(Len(mem) + 1, 0), !.pc = nxt, !.ovf = NoOvf])
+                                /\ UNCHANGED <<prog, log, status, why, result>>
+       [] op = "va_end" ->
+            LET a == RegVal(R, I.s[1].r) IN
+            IF IsBad(a) THEN GoUndef(a.why)
+            ELSE IF ~VaState(a).ok THEN GoUndef("va_end on something va_start of this activation did not set up")
+            ELSE Jump(nxt)
        [] op = "alloca" ->
             LET a == AsInt(Eval(R, mem, I.s[1])) IN
             IF IsBad(a) THEN GoUndef(a.why)
@@ -322,7 +374,7 @@ Step ==
                  ELSE LET g == prog.funcs[args[2].f] IN
                       /\ log' = Append(log, <<args[1].w, args[3].w>>)
                       /\ frames' = Append(SetTop([Top EXCEPT !.ovf = NoOvf]),
-                                          [f |-> args[2].f, id |-> steps + 1, pc |-> 1,
+                                          [f |-> args[2].f, id |-> steps + 1, va |-> <<>>, pc |-> 1,
                                            regs |-> [r \in 1..Len(g.regty) |-> IF r = 1 THEN Narrow(g.params[1], args[3]) ELSE UndefV],
                                            base |-> Len(mem), ovf |-> NoOvf])
                       /\ UNCHANGED <<mem, status, why, result>>
@@ -344,7 +396,7 @@ Step ==
                  IF Len(frames) >= 12 THEN GoUndef("call depth bound")
                  ELSE IF blkbad THEN GoUndef("block argument is not the address of a live 16-byte block")
                  ELSE /\ frames' = Append(SetTop([Top EXCEPT !.ovf = NoOvf]),
-                                          [f |-> cf, id |-> steps + 1, pc |-> 1,
+                                          [f |-> cf, id |-> steps + 1, va |-> VaTail(I, g, args), pc |-> 1,
                                            regs |-> [r \in 1..Len(g.regty) |->
                                                        IF r = bv THEN PtrV(Len(mem) + 1, 0)     \* the callee sees its own copy
                                                        ELSE IF r <= Len(g.params) THEN Narrow(g.params[r], args[r]) ELSE UndefV],
